@@ -176,6 +176,29 @@ func checkC13(c *Check) {
 		}
 	}
 
+	// WriteHeader always enters the status region: no flag, status class or mode lets a first status be dropped
+	{
+		var commit []ssa.Instruction
+		if onceIdiom {
+			for _, ci := range callsNamed(mWH, "(*sync.Once).Do") {
+				commit = append(commit, ci)
+			}
+		} else {
+			for _, u := range under["WriteHeader"] {
+				if u.Parent() == mWH {
+					commit = append(commit, u)
+				}
+			}
+		}
+		already := edgesWhere(mWH, cBool(vCall(rwT+".Written")), true)
+		key := p.FuncKey(mWH) + ":always-commits"
+		if in, path := (Query{Fn: mWH, Cut: already, Avoid: inSet(commit)}).FromEntry(isReturn); in != nil && len(commit) > 0 {
+			c.Bad(key, p.Pos(in.Pos()), "WriteHeader can return without entering the status region although no status was sent yet: the caller's status (e.g. Recovery's 500) is dropped and the client gets an implicit 200", blockPath(path))
+		} else if len(commit) > 0 {
+			c.OK(key, p.FuncPos(mWH), "every path through WriteHeader enters the status region (or a status was already sent)", numInstrs(mWH))
+		}
+	}
+
 	// ---- R6 (part) all writers of status
 	c.Rule("R6", "E5 effects + E3", "status is written only in the status region, after the underlying WriteHeader, with the same value; every access is atomic; Status/Written/Size report the fields", 6)
 	if fStatus == nil || fSize == nil || fHooks == nil {
